@@ -1572,6 +1572,12 @@ class Interp:
             if not vals:
                 return SharedPtr(None)
             v = vals[0]
+            if len(vals) >= 2 and isinstance(vals[1], Pointer):
+                # aliasing constructor shared_ptr(owner, raw): points at *raw (it does not own it - R-OWN.borrow's business)
+                return SharedPtr(val(vals[1].lv))
+            if isinstance(v, Pointer):
+                # shared_ptr(raw [, deleter]): points at *raw
+                return SharedPtr(val(v.lv))
             if isinstance(v, SharedPtr):
                 if d.get("movector") and isinstance(args[0], LV):
                     t = v.target
@@ -1832,9 +1838,22 @@ class Interp:
         if isinstance(o, Pointer):   # p->size(), (*p)[i] on std containers
             o = val(o.lv)
 
+        # ---- std::numeric_limits<T>::... of the scalar type: the exact domain has no infinity and no rounding; the values
+        # are stand-ins that compare like the real ones against every value a region can hold
+        if rq.startswith("std::numeric_limits<") and self.is_scalar_type(rq[len("std::numeric_limits<"):-1]):
+            big = Fraction(10) ** 40
+            tab = {"infinity": big, "max": big / 2, "lowest": -big / 2, "min": 1 / big, "denorm_min": 1 / (big * big),
+                   "epsilon": Fraction(1, 2 ** 52), "quiet_NaN": NAN, "signaling_NaN": NAN}
+            if name in tab:
+                return Sc(tab[name])
         # ---- free std functions
         if ci.kind == "free":
             base = qn.split("<")[0]
+            if base in ("std::abs", "abs", "std::fabs", "fabs") and len(V) == 1 and isinstance(V[0], Sc):
+                x_ = V[0]
+                if x_.v is None:
+                    return Sc(None, x_.deps, lin=None, mono=x_.mono)
+                return x_ if x_.v == NAN or x_.v >= 0 else sc_arith("*", Sc(-1), x_)
             if base in ("std::isnan", "isnan", "std::isfinite", "isfinite") and len(V) == 1 and isinstance(V[0], Sc):
                 # opaque (value-dependent) scalars stand for ordinary finite numbers
                 isn = V[0].v == NAN
